@@ -138,6 +138,7 @@ impl It {
             "cfgrep" => It::CfgRep(Box::new(It::from_json(&a[1])?), 0),
             "cfgrepmin" => It::CfgRep(Box::new(It::from_json(&a[1])?), 1),
             "cfgrepmax" => It::CfgRep(Box::new(It::from_json(&a[1])?), 2),
+            "cfgreptry" => It::CfgRep(Box::new(It::from_json(&a[1])?), 3),
             _ => return Err(format!("unknown iterator op {op}")),
         })
     }
